@@ -106,6 +106,7 @@ def run_marmot(ctx, rt, *, invariants, properties=(), view, mc, profiles, nontri
                assumptions=None, known_tags=()):
     pid, tier, seed = ctx["pid"], ctx["tier"], ctx["seed"]
     t0 = ctx["t0"]
+    rt.build_harness()
     viol = []
     known_seen = set()
     dev = rt.dev_flags()
